@@ -26,6 +26,9 @@ def run(check):
     check.run_rule('C05.R4', lambda c: rule_evaluation_order(c, 'C05.R4'))
     from ..rules_visitor import rule_attribute_handler
     check.run_rule('C05.R11', lambda c: rule_attribute_handler(c, 'C05.R11'))
+    from ..rules_visitor import rule_every_operand_visited, rule_generator_expression_lazy
+    check.run_rule('C05.R12', lambda c: rule_every_operand_visited(c, 'C05.R12'))
+    check.run_rule('C05.R13', lambda c: rule_generator_expression_lazy(c, 'C05.R13'))
     from ..rules_visitor import rule_enclosing_lookup
     check.run_rule('C05.R9d', lambda c: rule_enclosing_lookup(c, 'C05.R9'))
     from ..rules_visitor import rule_recheck_table
